@@ -442,7 +442,9 @@ def _emit_item(it: Item, spell=None, derives=None, tyspell=None) -> str:
         lines.append("#[ts(optional_fields = nullable)]")
     if it.export_to is not None:
         lines.append(f"#[ts(export_to = {rs_str(it.export_to)})]")
-    if it.concrete and getattr(it, "concrete_split", False):
+    if it.concrete and getattr(it, "concrete_split", False) == "same-list":
+        lines.append("#[ts(" + ", ".join(f"concrete({k} = {v})" for k, v in it.concrete.items()) + ")]")
+    elif it.concrete and getattr(it, "concrete_split", False):
         for k, v in it.concrete.items():
             lines.append(f"#[ts(concrete({k} = {v}))]")
     elif it.concrete:
